@@ -12,6 +12,7 @@ import (
 	"go/token"
 	"go/types"
 	"math"
+	"strconv"
 	"strings"
 
 	"golang.org/x/tools/go/ssa"
@@ -39,6 +40,25 @@ type evalFrame struct {
 type memKey struct {
 	base  ssa.Value
 	field int
+}
+
+const (
+	cellField    = -1 // the value of a local variable that lives in memory
+	builderField = -2 // the text accumulated in a local strings.Builder
+)
+
+// isAggregate: the local holds a struct or an array (its parts are addressed separately).
+func isAggregate(al *ssa.Alloc) bool {
+	switch al.Type().Underlying().(*types.Pointer).Elem().Underlying().(type) {
+	case *types.Struct, *types.Array:
+		return true
+	}
+	return false
+}
+
+func recvIsBuilder(callee *ssa.Function) bool {
+	recv := callee.Signature.Recv()
+	return recv != nil && strings.HasSuffix(recv.Type().String(), "strings.Builder")
 }
 
 // unknownValue marks a field that was overwritten with something the evaluator could not evaluate.
@@ -258,6 +278,22 @@ func (ev *evaluator) eval(fr *evalFrame, v ssa.Value, depth int) (interface{}, b
 			}
 			return nil, false
 		}
+		// the value / ok of a comma-ok lookup in a local literal map
+		if lk, isL := x.Tuple.(*ssa.Lookup); isL && lk.CommaOk {
+			if mm, isLocal := lk.X.(*ssa.MakeMap); isLocal {
+				v, found, ok := ev.localMapLookup(fr, mm, lk.Index, depth)
+				if !ok {
+					return nil, false
+				}
+				if x.Index == 1 {
+					return found, true
+				}
+				if found {
+					return v, true
+				}
+				return zeroOf(lk.X.Type().Underlying().(*types.Map).Elem())
+			}
+		}
 		// the value / ok of a comma-ok lookup in a literal table
 		if lk, isL := x.Tuple.(*ssa.Lookup); isL && lk.CommaOk {
 			if tv, found, ok := ev.tableLookup(fr, lk, depth); ok {
@@ -272,6 +308,15 @@ func (ev *evaluator) eval(fr *evalFrame, v ssa.Value, depth int) (interface{}, b
 		}
 		return nil, false
 	case *ssa.Lookup:
+		if mm, isLocal := x.X.(*ssa.MakeMap); isLocal && !x.CommaOk {
+			if v, found, ok := ev.localMapLookup(fr, mm, x.Index, depth); ok {
+				if found {
+					return v, true
+				}
+				return zeroOf(x.Type())
+			}
+			return nil, false
+		}
 		if !x.CommaOk {
 			if tv, found, ok := ev.tableLookup(fr, x, depth); ok {
 				if found {
@@ -317,6 +362,12 @@ func (ev *evaluator) eval(fr *evalFrame, v ssa.Value, depth int) (interface{}, b
 				}
 				return nil, false
 			case *ssa.FieldAddr:
+				// a field of an element of a local literal table ([]struct{...}{...} walked by a loop)
+				if ia, ok := addr.X.(*ssa.IndexAddr); ok {
+					if v, ok := ev.localElem(fr, ia, addr.Field, depth); ok {
+						return v, true
+					}
+				}
 				// a field of an object this activation allocated holds what was (once) stored into it
 				if al, ok := addr.X.(*ssa.Alloc); ok && al.Parent() != nil {
 					var stored ssa.Value
@@ -342,6 +393,10 @@ func (ev *evaluator) eval(fr *evalFrame, v ssa.Value, depth int) (interface{}, b
 				}
 				return nil, false
 			case *ssa.IndexAddr:
+				// an element of a local literal table
+				if v, ok := ev.localElem(fr, addr, -1, depth); ok {
+					return v, true
+				}
 				// one rune or byte of an evaluated string: []rune(s)[i], []byte(s)[i]
 				if cv, isCv := addr.X.(*ssa.Convert); isCv && isStringType(cv.X.Type()) {
 					sv, ok1 := ev.eval(fr, cv.X, depth+1)
@@ -565,6 +620,9 @@ func (ev *evaluator) eval(fr *evalFrame, v ssa.Value, depth int) (interface{}, b
 					}
 				}
 			}
+			if n, ok := localLiteralLen(x.Common().Args[0]); ok {
+				return n, true
+			}
 			if sv, ok := ev.eval(fr, x.Common().Args[0], depth+1); ok {
 				if str, isS := sv.(string); isS {
 					return int64(len(str)), true
@@ -597,6 +655,28 @@ func (ev *evaluator) eval(fr *evalFrame, v ssa.Value, depth int) (interface{}, b
 				return math.Ceil(f), true
 			}
 			return math.Floor(f), true
+		case "strconv.FormatInt":
+			if len(x.Common().Args) == 2 {
+				a, ok1 := ev.eval(fr, x.Common().Args[0], depth+1)
+				b, ok2 := ev.eval(fr, x.Common().Args[1], depth+1)
+				k, isK := a.(int64)
+				base, isB := b.(int64)
+				if ok1 && ok2 && isK && isB && base >= 2 && base <= 36 {
+					return strconv.FormatInt(k, int(base)), true
+				}
+			}
+			return nil, false
+		case "strings.Repeat":
+			if len(x.Common().Args) == 2 {
+				a, ok1 := ev.eval(fr, x.Common().Args[0], depth+1)
+				b, ok2 := ev.eval(fr, x.Common().Args[1], depth+1)
+				str, isS := a.(string)
+				k, isK := b.(int64)
+				if ok1 && ok2 && isS && isK && k >= 0 && k < 1000 {
+					return strings.Repeat(str, int(k)), true
+				}
+			}
+			return nil, false
 		case "strconv.Itoa":
 			a, ok := ev.eval(fr, x.Common().Args[0], depth+1)
 			k, isI := a.(int64)
@@ -682,6 +762,17 @@ func (ev *evaluator) eval(fr *evalFrame, v ssa.Value, depth int) (interface{}, b
 // ev.fail set: a condition that cannot be evaluated, or a block visited twice).
 func (ev *evaluator) run(fn *ssa.Function, parent *evalFrame, call *ssa.Call, start *ssa.BasicBlock, stop func(b *ssa.BasicBlock) bool) ([]interface{}, string) {
 	fr := &evalFrame{fn: fn, parent: parent, call: call, phiFrom: map[*ssa.BasicBlock]*ssa.BasicBlock{}}
+	if start == nil && stop == nil {
+		// a whole function with one loop whose carried values are scalars is read as a table over the
+		// iteration number (runCounted); anything else with a loop fails as before
+		if h, many := loopHeaderOf(fn); h != nil && !many && h != fn.Blocks[0] {
+			budget := ev.counted
+			if budget <= 0 {
+				budget = 512
+			}
+			return ev.runCountedFrame(fr, budget)
+		}
+	}
 	return ev.runFrame(fr, start, stop)
 }
 
@@ -742,6 +833,75 @@ func (ev *evaluator) runFrame(fr *evalFrame, start *ssa.BasicBlock, stop func(b 
 						fr.mem[memKey{fr.resolve(fa.X), fa.Field}] = v
 					} else {
 						fr.mem[memKey{fr.resolve(fa.X), fa.Field}] = unknownValue{}
+					}
+				}
+				// a local variable that lives in memory (a named result with defer, a captured variable)
+				if al, isCell := x.Addr.(*ssa.Alloc); isCell && !isAggregate(al) {
+					if fr.mem == nil {
+						fr.mem = map[memKey]interface{}{}
+					}
+					if v, ok := ev.eval(fr, x.Val, 0); ok {
+						fr.mem[memKey{al, cellField}] = v
+					} else {
+						fr.mem[memKey{al, cellField}] = unknownValue{}
+					}
+				}
+			}
+			// a cell is read where the load stands, not where its value is used
+			if ld, ok := ins.(*ssa.UnOp); ok && ld.Op == token.MUL {
+				if al, isCell := ld.X.(*ssa.Alloc); isCell && !isAggregate(al) && fr.mem != nil {
+					if v, ok := fr.mem[memKey{al, cellField}]; ok {
+						if fr.vals == nil {
+							fr.vals = map[ssa.Value]interface{}{}
+						}
+						fr.vals[ld] = v
+					}
+				}
+			}
+			// text accumulated in a local strings.Builder
+			if call, ok := ins.(*ssa.Call); ok {
+				if callee := call.Common().StaticCallee(); callee != nil && recvIsBuilder(callee) && len(call.Common().Args) > 0 {
+					if al, isLocal := call.Common().Args[0].(*ssa.Alloc); isLocal {
+						if fr.mem == nil {
+							fr.mem = map[memKey]interface{}{}
+						}
+						cur, _ := fr.mem[memKey{al, builderField}].(string)
+						switch callee.Name() {
+						case "WriteString":
+							if v, ok := ev.eval(fr, call.Common().Args[1], 0); ok {
+								if str, isS := v.(string); isS {
+									fr.mem[memKey{al, builderField}] = cur + str
+									break
+								}
+							}
+							fr.mem[memKey{al, builderField}] = unknownValue{}
+						case "WriteByte", "WriteRune":
+							if v, ok := ev.eval(fr, call.Common().Args[1], 0); ok {
+								if k, isI := v.(int64); isI {
+									fr.mem[memKey{al, builderField}] = cur + string(rune(k))
+									break
+								}
+							}
+							fr.mem[memKey{al, builderField}] = unknownValue{}
+						case "String":
+							if fr.vals == nil {
+								fr.vals = map[ssa.Value]interface{}{}
+							}
+							if _, bad := fr.mem[memKey{al, builderField}].(unknownValue); bad {
+								fr.vals[call] = unknownValue{}
+							} else {
+								fr.vals[call] = cur
+							}
+						case "Len":
+							if fr.vals == nil {
+								fr.vals = map[ssa.Value]interface{}{}
+							}
+							fr.vals[call] = int64(len(cur))
+						case "Grow", "Reset":
+							if callee.Name() == "Reset" {
+								fr.mem[memKey{al, builderField}] = ""
+							}
+						}
 					}
 				}
 			}
@@ -1099,6 +1259,7 @@ func (ev *evaluator) runCountedFrame(fr0 *evalFrame, maxIter int) ([]interface{}
 		}
 		state[phi] = c0
 	}
+	carried := fr0.mem
 	for n := 0; n < maxIter; n++ {
 		fr := &evalFrame{fn: fn, parent: fr0.parent, call: fr0.call, phiFrom: map[*ssa.BasicBlock]*ssa.BasicBlock{}, vals: map[ssa.Value]interface{}{}}
 		for k, p := range fr0.phiFrom {
@@ -1108,6 +1269,12 @@ func (ev *evaluator) runCountedFrame(fr0 *evalFrame, maxIter int) ([]interface{}
 		}
 		for k, x := range fr0.vals {
 			fr.vals[k] = x
+		}
+		if carried != nil {
+			fr.mem = map[memKey]interface{}{}
+			for k, x := range carried {
+				fr.mem[k] = x
+			}
 		}
 		for phi, v := range state {
 			fr.vals[phi] = v
@@ -1145,6 +1312,7 @@ func (ev *evaluator) runCountedFrame(fr0 *evalFrame, maxIter int) ([]interface{}
 		if outcome != fmt.Sprintf("stop:%d", header.Index) {
 			return res, outcome
 		}
+		carried = fr.mem // local cells, builders and fields written so far
 		latch := fr.phiFrom[header]
 		delete(fr.phiFrom, header)
 		idx := -1
@@ -1178,8 +1346,118 @@ func (ev *evaluator) runCountedFrame(fr0 *evalFrame, maxIter int) ([]interface{}
 // runCallee reads an inlined library callee: loop-free ones by the walker, and (when ev.counted is set)
 // those with one closed-form loop as a table over the iteration number.
 func (ev *evaluator) runCallee(callee *ssa.Function, fr *evalFrame, call *ssa.Call) ([]interface{}, string) {
-	if h, _ := loopHeaderOf(callee); h != nil && ev.counted > 0 {
-		return ev.runCountedFrame(&evalFrame{fn: callee, parent: fr, call: call, phiFrom: map[*ssa.BasicBlock]*ssa.BasicBlock{}}, ev.counted)
-	}
 	return ev.run(callee, fr, call, nil, nil)
+}
+
+
+// localArrayOf: v is a local array written as a literal, or a slice of one ([]T{...} is `new [N]T` sliced whole).
+func localArrayOf(v ssa.Value) (*ssa.Alloc, bool) {
+	if sl, ok := v.(*ssa.Slice); ok && sl.Low == nil && sl.High == nil {
+		v = sl.X
+	}
+	al, ok := v.(*ssa.Alloc)
+	if !ok {
+		return nil, false
+	}
+	if _, isArr := al.Type().Underlying().(*types.Pointer).Elem().Underlying().(*types.Array); !isArr {
+		return nil, false
+	}
+	return al, true
+}
+
+func localLiteralLen(v ssa.Value) (int64, bool) {
+	if al, ok := localArrayOf(v); ok {
+		return al.Type().Underlying().(*types.Pointer).Elem().Underlying().(*types.Array).Len(), true
+	}
+	return 0, false
+}
+
+// localElem: the value stored into element [index] (field `field`, or the whole element when field < 0) of a
+// local literal table: the one store to that place with a constant index, found in the function's own code.
+// Elements the literal does not mention hold the zero value.
+func (ev *evaluator) localElem(fr *evalFrame, ia *ssa.IndexAddr, field int, depth int) (interface{}, bool) {
+	al, ok := localArrayOf(ia.X)
+	if !ok || al.Parent() == nil {
+		return nil, false
+	}
+	iv, ok := ev.eval(fr, ia.Index, depth+1)
+	i, isI := iv.(int64)
+	if !ok || !isI {
+		return nil, false
+	}
+	n := al.Type().Underlying().(*types.Pointer).Elem().Underlying().(*types.Array).Len()
+	if i < 0 || i >= n {
+		ev.panicked = true
+		return nil, false
+	}
+	var stored ssa.Value
+	cnt := 0
+	dynamic := false
+	for _, b := range al.Parent().Blocks {
+		for _, ins := range b.Instrs {
+			st, ok := ins.(*ssa.Store)
+			if !ok {
+				continue
+			}
+			addr := st.Addr
+			f := -1
+			if fa, ok := addr.(*ssa.FieldAddr); ok {
+				addr, f = fa.X, fa.Field
+			}
+			sia, ok := addr.(*ssa.IndexAddr)
+			if !ok {
+				continue
+			}
+			if sal, ok := localArrayOf(sia.X); !ok || sal != al {
+				continue
+			}
+			k, isK := constInt(sia.Index)
+			if !isK {
+				dynamic = true
+				continue
+			}
+			if k == i && f == field {
+				stored = st.Val
+				cnt++
+			}
+		}
+	}
+	if dynamic || cnt > 1 {
+		return nil, false // not a plain literal
+	}
+	if cnt == 0 {
+		t := al.Type().Underlying().(*types.Pointer).Elem().Underlying().(*types.Array).Elem()
+		if field >= 0 {
+			if st, ok := t.Underlying().(*types.Struct); ok && field < st.NumFields() {
+				t = st.Field(field).Type()
+			}
+		}
+		return zeroOf(t)
+	}
+	return ev.eval(fr, stored, depth+1)
+}
+
+// localMapLookup: a lookup in a map the function builds itself from a literal (make + one update per key).
+func (ev *evaluator) localMapLookup(fr *evalFrame, mm *ssa.MakeMap, key ssa.Value, depth int) (val interface{}, found bool, ok bool) {
+	kv, ok := ev.eval(fr, key, depth+1)
+	if !ok || mm.Parent() == nil {
+		return nil, false, false
+	}
+	for _, b := range mm.Parent().Blocks {
+		for _, ins := range b.Instrs {
+			up, isUp := ins.(*ssa.MapUpdate)
+			if !isUp || up.Map != ssa.Value(mm) {
+				continue
+			}
+			uk, ok := ev.eval(fr, up.Key, depth+1)
+			if !ok {
+				return nil, false, false
+			}
+			if uk == kv {
+				v, ok := ev.eval(fr, up.Value, depth+1)
+				return v, true, ok
+			}
+		}
+	}
+	return nil, false, true
 }
